@@ -36,6 +36,9 @@ impl VRequest {
         router.0.handle(unsafe { self.0.as_mut().get_unchecked_mut() }).await
     }
 }
+/// the response header set by name (its public bulk constructor `from_iter` / `into_iter` cannot be reached without naming the type)
+pub use crate::response::ResponseHeaders;
+pub fn new_response_headers() -> ResponseHeaders { ResponseHeaders::new() }
 pub fn declared_size(res: &Response) -> usize { res.__verif_declared_size() }
 pub fn complete(res: &mut Response) { res.complete() }
 /// returns true if the response asked for an upgrade
